@@ -11,6 +11,7 @@
 import TakVerif.Lemmas.ServerProgress
 import TakVerif.Lemmas.ServerTrace
 import TakVerif.Lemmas.ServerObs
+import TakVerif.Lemmas.ServerLeave
 
 namespace Tak.C17
 
@@ -286,5 +287,168 @@ example : validTrace 2 exF
 example : validTrace 2 exF [.arrive 10 [1, 2], .arrive 11 [3], .take 11] = false := by decide
 
 end Examples
+
+/-! ### callers that go away (Model/ServerLeave.lean)
+
+  `leave id`: the caller of request `id` abandons its call — while parked in `queue.put`, while
+  the request is queued or in a batch, while the model runs, or after it was answered.  The
+  theorems quantify over every execution `lrun cap f linit as = some s`: every interleaving of
+  departures with arrivals, admissions, batch formation and model latency. -/
+
+/-- Departures never reach the server's own state: erasing them from an execution leaves an
+    execution of the base system with the same final server state.  So everything proved above
+    about `s.base` (conservation, FIFO order, progress) holds whoever leaves, and whenever. -/
+theorem C17_leave_refines {cap : Nat} {f : P → R} {as : List (LAction P)} {s : LState P R}
+    (hr : lrun cap f linit as = some s) : run cap f init (eraseLeaves as) = some s.base :=
+  lrun_project hr
+
+/-- With nobody leaving, the layered system is the base system. -/
+theorem C17_leave_conservative {cap : Nat} {f : P → R} {as : List (Action P)} {b : State P R}
+    (hr : run cap f init as = some b) :
+    ∃ s, lrun cap f (linit : LState P R) (as.map .act) = some s ∧ s.base = b ∧ s.gone = [] :=
+  lrun_of_run rfl hr
+
+/-- Pairing: whatever a caller receives is `f` of the position IT submitted, no matter who left
+    in the meantime (a departure never shifts rows between requesters). -/
+theorem C17_leave_pairing {cap : Nat} {f : P → R} {as : List (LAction P)} {s : LState P R}
+    (hr : lrun cap f linit as = some s) {i : Nat} {resp : R} (hd : (i, resp) ∈ s.delivered)
+    {r : Req P} (hmem : r ∈ s.base.arrived) (hid : r.id = i) : resp = f r.position :=
+  C17_pairing (lrun_project hr) ((linv_run linv_init hr).sub.subset hd) hmem hid
+
+/-- No caller receives two responses. -/
+theorem C17_leave_at_most_once {cap : Nat} {f : P → R} {as : List (LAction P)} {s : LState P R}
+    (hr : lrun cap f linit as = some s) : (s.delivered.map (·.1)).Nodup := by
+  have h := C17_at_most_once (lrun_project hr)
+  unfold State.answeredIds at h
+  exact ((linv_run linv_init hr).sub.map (·.1)).nodup h
+
+/-- A caller that stays is served exactly as if nobody had left: once the server has answered its
+    request, the caller holds `f` of its own position. -/
+theorem C17_leave_stayers_served {cap : Nat} {f : P → R} {as : List (LAction P)} {s : LState P R}
+    (hr : lrun cap f linit as = some s) {r : Req P} (hmem : r ∈ s.base.arrived)
+    (hstay : r.id ∉ s.gone) (hans : r.id ∈ s.base.answeredIds) :
+    (r.id, f r.position) ∈ s.delivered := by
+  obtain ⟨x, hx, hxid⟩ := List.mem_map.mp hans
+  have hresp : x.2 = f r.position :=
+    C17_pairing (lrun_project hr) (i := x.1) (resp := x.2) hx hmem hxid.symm
+  rcases (linv_run linv_init hr).cover x hx with h | h
+  · exact absurd (hxid ▸ h) hstay
+  · have : x = (r.id, f r.position) := Prod.ext hxid hresp
+    exact this ▸ h
+
+/-- Non-interference: two executions that differ only in who left, and when, deliver the same
+    responses to every caller that stayed in both. -/
+theorem C17_leave_noninterference {cap : Nat} {f : P → R} {as as' : List (LAction P)}
+    {s s' : LState P R} (hr : lrun cap f linit as = some s) (hr' : lrun cap f linit as' = some s')
+    (hsame : eraseLeaves as = eraseLeaves as') {x : Nat × R} (h1 : x.1 ∉ s.gone)
+    (h2 : x.1 ∉ s'.gone) : x ∈ s.delivered ↔ x ∈ s'.delivered := by
+  have hb : s.base = s'.base := by
+    have a := lrun_project hr
+    have b := lrun_project hr'
+    rw [hsame] at a
+    exact Option.some.inj (a.symm.trans b)
+  have inv := linv_run linv_init hr
+  have inv' := linv_run linv_init hr'
+  constructor
+  · intro h
+    rcases inv'.cover x (hb ▸ inv.sub.subset h) with g | g
+    · exact absurd g h2
+    · exact g
+  · intro h
+    rcases inv.cover x (hb ▸ inv'.sub.subset h) with g | g
+    · exact absurd g h1
+    · exact g
+
+/-- Progress is untouched by departures: a request at index `k` of the line is answered by the
+    server after at most `k + 1` further completed model calls, and its caller, if it is still
+    there, then holds its response. -/
+theorem C17_leave_fifo_progress {cap : Nat} {f : P → R} {as₀ as : List (LAction P)}
+    {s s' : LState P R} (hr₀ : lrun cap f linit as₀ = some s) {k : Nat} {r : Req P}
+    (hmem : r ∈ s.base.arrived) (hk : (ids s.base.line)[k]? = some r.id)
+    (hr : lrun cap f s as = some s') (hc : k + 1 ≤ completes (eraseLeaves as))
+    (hstay : r.id ∉ s'.gone) : (r.id, f r.position) ∈ s'.delivered := by
+  have hall : lrun cap f linit (as₀ ++ as) = some s' := lrun_append hr₀ hr
+  have hans : r.id ∈ s'.base.answeredIds :=
+    C17_fifo_progress (lrun_project hr₀) hk (lrun_project hr) hc
+  have hmem' : r ∈ s'.base.arrived := by
+    have := lrun_project hr
+    exact arrived_mono_run this r hmem
+  exact C17_leave_stayers_served hall hmem' hstay hans
+
+/-- When the event loop is idle — the line is empty and every caller still parked has left —
+    every caller that stayed holds the response for its own position. -/
+theorem C17_leave_quiescent {cap : Nat} {f : P → R} {as : List (LAction P)} {s : LState P R}
+    (hr : lrun cap f linit as = some s) (hline : s.base.line = [])
+    (hparked : ∀ q ∈ s.base.putters, q.id ∈ s.gone) {r : Req P} (hmem : r ∈ s.base.arrived)
+    (hstay : r.id ∉ s.gone) : (r.id, f r.position) ∈ s.delivered := by
+  have inv := inv_reachable (lrun_project hr)
+  have h1 := inv.count r.id
+  have h2 : (ids s.base.arrived).count r.id = 1 := by
+    rw [inv.nodup.count]
+    simp [mem_ids hmem]
+  have hpend : (ids s.base.pending).count r.id = 0 := by
+    apply List.count_eq_zero.mpr
+    intro hin
+    obtain ⟨q, hq, hqid⟩ := List.mem_map.mp hin
+    have hq' : q ∈ s.base.line ++ s.base.putters := by
+      simpa [State.pending, State.line] using hq
+    rw [hline, List.nil_append] at hq'
+    exact hstay (hqid ▸ hparked q hq')
+  have hans : r.id ∈ s.base.answeredIds := by
+    apply Classical.byContradiction
+    intro hn
+    have := List.count_eq_zero.mpr hn
+    omega
+  exact C17_leave_stayers_served hr hmem hstay hans
+
+/-- A parked caller that left never enters the queue: it is still parked, and still gone, in every
+    later state (so it is never evaluated and never answered). -/
+theorem C17_leave_parked_never_enters {cap : Nat} {f : P → R} {as : List (LAction P)}
+    {s s' : LState P R} (hr : lrun cap f s as = some s') {r : Req P}
+    (hp : r ∈ s.base.putters) (hg : r.id ∈ s.gone) : r ∈ s'.base.putters ∧ r.id ∈ s'.gone := by
+  induction as generalizing s with
+  | nil => simp only [lrun] at hr; cases hr; exact ⟨hp, hg⟩
+  | cons a as ih =>
+    simp only [lrun] at hr
+    cases hstep : lstep cap f s a with
+    | none => simp [hstep] at hr
+    | some s1 =>
+      simp only [hstep, Option.bind_some] at hr
+      obtain ⟨h1, h2⟩ := gone_putter_step hstep hp hg
+      exact ih hr h1 h2
+
+/-- A trace with departures that the checker accepts is an execution of the layered system. -/
+theorem C17_leave_trace_sound {cap : Nat} {f : List Nat → R} {es : List LEvent}
+    {s s' : LState (List Nat) R} {n : Nat} (h : lcheckTrace cap f s n es = .ok s') :
+    ∃ as, as.length = es.length ∧ lrun cap f s as = some s' :=
+  lcheckTrace_sound h
+
+section LeaveExamples
+
+/-- capacity 1: 10 is queued, 11 and 12 are parked; 11 leaves while parked, 10 leaves while the
+    model runs on its row; 12 enters, is evaluated and is the only caller that receives anything -/
+def exLeave : List (LAction (List Nat)) :=
+  [.act (.arrive ⟨10, [1, 2]⟩), .act (.arrive ⟨11, [3]⟩), .act (.arrive ⟨12, [4, 5]⟩),
+   .leave 11, .act .take, .act .close, .leave 10, .act (.enter 1), .act .complete,
+   .act .take, .act .close, .act .complete]
+
+example : (lrun 1 exF linit exLeave).map (fun s =>
+      (s.delivered, s.base.answered, s.gone, ids s.base.putters, ids s.base.line)) =
+    some ([(12, 9)], [(10, 3), (12, 9)], [10, 11], [11], []) := by decide
+
+/-- the caller that left while parked cannot enter any more -/
+example : (lrun 1 exF linit (exLeave.take 6 ++ [.act .complete, .act (.enter 0)])).isNone = true := by
+  decide
+
+/-- hypotheses of `C17_leave_noninterference`: the same base actions with nobody leaving -/
+example : (eraseLeaves exLeave).length = 10 ∧
+    eraseLeaves ((eraseLeaves exLeave).map LAction.act) = eraseLeaves exLeave := by
+  refine ⟨by decide, ?_⟩
+  generalize eraseLeaves exLeave = l
+  induction l with
+  | nil => rfl
+  | cons a l ih => simp [eraseLeaves, ih]
+
+end LeaveExamples
 
 end Tak.C17
